@@ -14,6 +14,7 @@ Splicing a call `dest = callee(a1..an) -> T`:
 Closures are not spliced (they are called through the Fn* traits with a tupled argument); recursion is cut.
 """
 import copy
+import re
 
 from core import Fn
 from mir import is_noise
@@ -180,7 +181,10 @@ def _closure_key_of(d, blocks, operand, facts):
         for f in ("closure", "fn", "fna"):
             if k.get(f) in facts.data["fns"]:
                 return k[f], "item"
-        ty = k.get("ty") or ""
+        if k.get("fn"):
+            # a function item of another crate used as the callback (`.map(str::parse::<T>)`, `.and_then(Result::ok)`): the
+            # expansion calls it by name; what it does is then up to the rules / oracles, as for any foreign call
+            return k["fn"], "foreign"
         return None, None
     pl = operand.get("m") or operand.get("c")
     seen = 0
@@ -265,7 +269,7 @@ def _expand_combinator(facts, d, blocks, b, spec, level, stack_of):
         ck, kind = _closure_key_of(d, blocks, args[i], facts)
         if ck is None:
             return False
-        raw = facts.data["fns"][ck]
+        raw = facts.data["fns"].get(ck)
         ckeys[i] = (ck, kind, raw)
 
     ret = new_local()
@@ -336,6 +340,12 @@ def _expand_combinator(facts, d, blocks, b, spec, level, stack_of):
         if kind == "call":
             _, ci, how = e
             ck, ckind, raw = ckeys[ci]
+            if ckind == "foreign":
+                mctor = re.search(r"(?:option::Option(?:::<.*>)?|result::Result(?:::<.*>)?|prelude::\w+)::(Some|Ok|Err)$", ck)
+                if mctor and how == "payload":
+                    # a tuple-variant constructor used as the callback (`.map(Err)`): the value is the variant itself
+                    wadt = OPT if mctor.group(1) == "Some" else RES
+                    return emit(("wrap", wadt, mctor.group(1), ("payload",)), payload, cont_place, nxt)
             cargs = []
             pre = []
             if ckind == "closure":
@@ -353,7 +363,10 @@ def _expand_combinator(facts, d, blocks, b, spec, level, stack_of):
                 rl = new_local()
                 pre.append({"k": "assign", "p": {"l": rl, "p": []}, "r": {"k": "ref", "bk": "shared", "p": copy.deepcopy(payload)}, "l": line})
                 cargs.append({"m": {"l": rl, "p": []}})
-            term = {"k": "call", "res": ck, "resa": ck, "decl": ck, "resl": True, "resk": "item", "args": cargs, "argtys": [], "dest": cont_place, "t": nxt, "u": None, "l": line, "fl": line}
+            term = {"k": "call", "res": ck, "resa": ck, "decl": ck, "resl": ckind != "foreign", "resk": "item", "args": cargs, "argtys": [], "dest": cont_place, "t": nxt, "u": None, "l": line, "fl": line}
+            if ckind == "foreign":
+                fna = (args[ci].get("k") or {}).get("fna") or ck
+                term.update({"decla": fna, "resa": fna, "targs": []})
             if ckind == "closure":
                 term["synthetic_closure_call"] = True
             return new_block(pre, term)
